@@ -199,6 +199,10 @@ def gen_program(rng, big_ok=True):
                 off = min(off, flen - 1)
                 ln = rng.choice([1, 256, 257, flen - off]) if form == 2 else flen - off
                 ln = max(1, min(ln, flen - off))
+                if rng.random() < 0.2 and ln <= limit:
+                    # the included bytes end exactly at the last address of the segment
+                    addr = limit - ln
+                    lines.append('\torg\t%d' % addr)
                 if addr + ln > limit or ln > budget_bytes:
                     continue
                 budget_bytes -= ln
